@@ -169,3 +169,220 @@ pub fn replay(path: &str) -> i32 {
         }
     }
 }
+
+// ------------------------------------------------------------------------------------------
+// mass retirement: recoveries whose retirement set spans several journal transactions
+// ------------------------------------------------------------------------------------------
+
+/// A device image on which recovery has to retire more extents than one allocation-journal
+/// transaction holds (1024 coalesced entries), so that the retirement is split across several
+/// transactions and a crash between two of them is a reachable state (C04, C11).
+#[derive(Clone, Debug, serde::Serialize, serde::Deserialize)]
+pub struct MassSpec {
+    pub version: u32,
+    /// keys with two generations on the device
+    pub pairs: u16,
+    /// single superseded generations in front (shift the transaction boundary)
+    pub lead: u8,
+    /// the newest generation lies at the lower sector
+    pub newest_first: bool,
+    /// the two generations are adjacent (they coalesce into one journal entry)
+    pub adjacent: bool,
+    /// every k-th pair has an unexpired newest generation (0 = all newest generations expired)
+    pub live_every: u8,
+    pub ttl: bool,
+    /// extra crash points: (position scaled over the recovery trace, seed of the volatile subset)
+    pub cuts: Vec<(u16, u64)>,
+}
+
+pub fn mass_strategy() -> BoxedStrategy<MassSpec> {
+    let shape = prop_oneof![
+        5 => (380u16..760, Just(false)),
+        1 => (900u16..1250, Just(true)),
+    ];
+    (prop_oneof![Just(3u32), Just(3u32), Just(2u32)], shape, 0u8..5, any::<bool>(), prop_oneof![3 => Just(0u8), 2 => 2u8..9], proptest::bool::weighted(0.85), proptest::collection::vec((any::<u16>(), any::<u64>()), 0..5))
+        .prop_map(|(version, (pairs, adjacent), lead, newest_first, live_every, ttl, cuts)| MassSpec { version, pairs, lead, newest_first, adjacent, live_every, ttl, cuts })
+        .boxed()
+}
+
+fn mass_image(spec: &MassSpec) -> Vec<u8> {
+    use crate::layout::B;
+    let version = spec.version;
+    let blocks = 16 + spec.lead as u64 * 3 + spec.pairs as u64 * 4 + 8;
+    let mut img = layout::fresh_image(version, blocks, false);
+    let mut s = 16u64;
+    let mut put = |img: &mut Vec<u8>, key: &[u8], val: &[u8], ts: u64, ex: u64| {
+        let ext = layout::encode_record(version, s, key, val, ts, ex);
+        img[s as usize * B..s as usize * B + ext.len()].copy_from_slice(&ext);
+        s += (ext.len() / B) as u64;
+    };
+    for j in 0..spec.lead {
+        put(&mut img, format!("lead-{j}").as_bytes(), b"older", 5, 0);
+        put(&mut img, format!("spacer-{j}").as_bytes(), b"live", 10, 0);
+    }
+    for i in 0..spec.pairs as u64 {
+        let k = format!("pair-{i:04}").into_bytes();
+        let live_winner = spec.live_every > 0 && i % spec.live_every as u64 == 0;
+        let newest_expiry = if live_winner { 0 } else { NOW - 5_000_000_000 };
+        let newest = (b"newest-generation".as_slice(), 2000 + i, newest_expiry);
+        let older = (b"older-generation-without-ttl".as_slice(), 1000 + i, 0u64);
+        let (first, second) = if spec.newest_first { (newest, older) } else { (older, newest) };
+        put(&mut img, &k, first.0, first.1, first.2);
+        if !spec.adjacent {
+            put(&mut img, format!("live-a-{i:04}").as_bytes(), b"x", 10, 0);
+        }
+        put(&mut img, &k, second.0, second.1, second.2);
+        put(&mut img, format!("live-b-{i:04}").as_bytes(), b"y", 10, 0);
+    }
+    for j in 0..spec.lead {
+        put(&mut img, format!("lead-{j}").as_bytes(), b"newer", 9, 0);
+    }
+    img
+}
+
+/// (images opened, retirement spanned more than one journal transaction)
+pub fn mass_judge(spec: &MassSpec, notes: &mut (u64, bool)) -> Result<(), String> {
+    let img = mass_image(spec);
+    let cfg = Config { persistent: true, version: spec.version, cache: false, ttl: spec.ttl, dev: DevSize::Tiny(0), max_memory: None, plain_io: true, legacy_plain_meta: false, visible_cpus: 2 };
+    let exp = expected(&img, spec.ttl).ok_or_else(|| "harness: mass image not decodable".to_string())?;
+    let first = crash::open_image(&img, &cfg, NOW, true, false).map_err(|e| format!("[mass-open-failed] a structurally clean v{} image with {} duplicate generations does not open: {e}", spec.version, spec.pairs))?;
+    notes.0 += 1;
+    let c1 = &first.contents.map;
+    if *c1 != exp {
+        let wrong: Vec<String> = c1.keys().filter(|k| !exp.contains_key(*k)).chain(exp.keys().filter(|k| !c1.contains_key(*k))).take(3).map(|k| String::from_utf8_lossy(k).into_owned()).collect();
+        return Err(format!("[mass-first-recovery] first recovery exposes {} keys, the newest-wins/expiry oracle {}; e.g. {wrong:?}", c1.len(), exp.len()));
+    }
+    let rec = &first.recovery_entries;
+    let journal_writes = rec.iter().filter(|e| matches!(e, crate::trace::Entry::Write { off, .. } if (1..7).contains(&(off / 4096)))).count();
+    // one transaction = one journal write + one clear; more than two journal-area writes means
+    // the retirement set was split
+    notes.1 = journal_writes > 2;
+    let mut points: Vec<(usize, Option<u64>)> = rec.iter().enumerate().filter(|(_, e)| matches!(e, crate::trace::Entry::FsyncEnd { .. })).map(|(p, _)| (p, None)).collect();
+    if !rec.is_empty() {
+        for (pos, seed) in &spec.cuts {
+            points.push(((*pos as usize * rec.len()) >> 16, Some(*seed | 1)));
+        }
+    }
+    points.sort();
+    let mut it = crash::ImageIter::new(&img, rec);
+    for (p, subset_seed) in points {
+        let (durable, volatile) = crate::trace::split_at(rec, p);
+        let mut x = subset_seed.unwrap_or(0);
+        let subset: Vec<bool> = volatile
+            .iter()
+            .map(|_| match subset_seed {
+                None => true,
+                Some(_) => {
+                    x ^= x << 13;
+                    x ^= x >> 7;
+                    x ^= x << 17;
+                    x & 1 == 1
+                }
+            })
+            .collect();
+        let nested = it.image(&durable, &volatile, &subset, None);
+        notes.0 += 1;
+        let kept = subset.iter().filter(|b| **b).count();
+        let at = format!("crash inside recovery after trace entry {p} of {} ({} durable writes, {kept} of {} un-synced writes present)", rec.len(), durable.len(), volatile.len());
+        match crash::open_image(&nested, &cfg, NOW, false, false) {
+            Err(e) => return Err(format!("[mass-restart-failed] {at}: restarted recovery fails: {e}")),
+            Ok(o) => {
+                if &o.contents.map != c1 {
+                    let back: Vec<String> = o.contents.map.keys().filter(|k| !c1.contains_key(*k)).take(3).map(|k| String::from_utf8_lossy(k).into_owned()).collect();
+                    let lost: Vec<String> = c1.keys().filter(|k| !o.contents.map.contains_key(*k)).take(3).map(|k| String::from_utf8_lossy(k).into_owned()).collect();
+                    let changed: Vec<String> = c1.iter().filter(|(k, v)| o.contents.map.get(*k).is_some_and(|w| w != *v)).take(3).map(|(k, _)| String::from_utf8_lossy(k).into_owned()).collect();
+                    return Err(format!("[mass-restart-contents] {at}: restarted recovery exposes {} keys, the first successful recovery {}; reappeared {back:?}, lost {lost:?}, changed {changed:?}", o.contents.map.len(), c1.len()));
+                }
+            }
+        }
+    }
+    Ok(())
+}
+
+pub fn mass_campaign(property: &'static str, tier: Tier, seed: u64) -> (i32, serde_json::Value) {
+    let images = Arc::new(AtomicU64::new(0));
+    let cases = Arc::new(AtomicU64::new(0));
+    let nt = Arc::new(Mutex::new(std::collections::HashSet::<u64>::new()));
+    let sample = Arc::new(Mutex::new(None::<String>));
+    let (i2, c2, n2, s2) = (images.clone(), cases.clone(), nt.clone(), sample.clone());
+    let check = move |spec: &MassSpec, counting: bool| -> Result<(), String> {
+        let mut notes = (0u64, false);
+        let r = mass_judge(spec, &mut notes);
+        if counting {
+            c2.fetch_add(1, Ordering::Relaxed);
+            i2.fetch_add(notes.0, Ordering::Relaxed);
+            if notes.1 && n2.lock().unwrap().insert(env::fnv(format!("{spec:?}").as_bytes())) {
+                let mut s = s2.lock().unwrap();
+                if s.is_none() {
+                    *s = Some(format!("{spec:?}"));
+                }
+            }
+        }
+        r
+    };
+    // saved minimal failures first (plain regression checks that bypass the generator)
+    let mut found: Option<(MassSpec, String)> = None;
+    let mut regressions = 0;
+    if let Ok(dir) = std::fs::read_dir(env::verif_root().join("regressions")) {
+        let mut files: Vec<_> = dir.flatten().map(|e| e.path()).collect();
+        files.sort();
+        for f in files {
+            let Ok(text) = std::fs::read_to_string(&f) else { continue };
+            let Ok(doc) = serde_json::from_str::<serde_json::Value>(&text) else { continue };
+            if doc["engine"] != "mass_retirement" {
+                continue;
+            }
+            let Ok(spec) = serde_json::from_value::<MassSpec>(doc["spec"].clone()) else { continue };
+            regressions += 1;
+            if found.is_none() {
+                if let Err(msg) = check(&spec, true) {
+                    found = Some((spec, msg));
+                }
+            }
+        }
+    }
+    if found.is_none() {
+        found = run_lanes(mass_strategy(), tier.pick(64, 1200), 24, seed ^ 0x3A55, env::threads(), check);
+    }
+    env::wait_reaper();
+    let mut code = 0;
+    let mut failure = serde_json::Value::Null;
+    if let Some((spec, msg)) = found {
+        let sig = msg.strip_prefix('[').and_then(|m| m.split(']').next()).unwrap_or("mass-retirement").to_string();
+        let replay = json!({"property": property, "engine": "mass_retirement", "signature": sig, "message": msg, "spec": serde_json::to_value(&spec).unwrap()});
+        if !env::report_violation(property, &sig, &replay) {
+            code = 1;
+            eprintln!("fxv: {property} (mass retirement): {msg}");
+        }
+        failure = json!({"signature": sig, "message": msg});
+    }
+    let summary = json!({
+        "cases": cases.load(Ordering::Relaxed),
+        "saved_regressions_replayed": regressions,
+        "images": images.load(Ordering::Relaxed),
+        "distinct_nontrivial": nt.lock().unwrap().len(),
+        "rule": "proptest-generated v2/v3 images holding 380-1250 keys with two generations each (newest first or last, adjacent or separated by live records, newest expired or live, 0-4 leading superseded generations shifting the boundary) so that recovery's retirement set exceeds one allocation-journal transaction (1024 coalesced extents); recovery #1 runs with the I/O trace on and must equal the codec's newest-wins/expiry decode; its own writes are then cut after every fsync and at generated positions with a generated subset of the un-synced writes present, and each restarted recovery must expose exactly the contents of the first successful one (no older generation of an expired key reappears, no live key is lost). Non-trivial: the retirement was split across more than one journal transaction.",
+        "sample": sample.lock().unwrap().clone(),
+        "failure": failure,
+    });
+    (code, summary)
+}
+
+pub fn replay_mass(path: &str) -> i32 {
+    let doc: serde_json::Value = serde_json::from_str(&std::fs::read_to_string(path).expect("read")).expect("json");
+    let spec: MassSpec = serde_json::from_value(doc["spec"].clone()).expect("spec");
+    let property = doc["property"].as_str().unwrap_or("C04").to_string();
+    let r = mass_judge(&spec, &mut (0, false));
+    env::wait_reaper();
+    match r {
+        Err(e) => {
+            println!("replay: {e}");
+            println!("VIOLATION property={property} replay={path}");
+            1
+        }
+        Ok(()) => {
+            println!("replay: every interrupted recovery of the saved image restarts to the same contents on this tree");
+            0
+        }
+    }
+}
